@@ -156,7 +156,9 @@ def run_docstring(case):
         d = docstring_parser.parse(raw)
         doc = {'raw': 'none' if raw is None else 'empty' if raw == '' else 'text',
                'params': [[p.arg_name, p.type_name] for p in d.params],
-               'returns': None if d.returns is None else list(d.returns.args[1:])}
+               'returns': None if d.returns is None else list(d.returns.args[1:]),
+               # Docstring.returns is the first Returns *or Yields* entry; pedantic does not look at the difference
+               'returns_kind': None if d.returns is None else d.returns.args[0]}
         alone = None
         try:
             deco(f)
